@@ -729,6 +729,15 @@ func (t *tr) resultTypes(c *ast.CallExpr) []ast.Expr {
 	return out
 }
 
+func isEmbeddedIn(st, e string) bool {
+	for _, x := range embedded[st] {
+		if x == e {
+			return true
+		}
+	}
+	return false
+}
+
 // structLit: a struct literal; with zeroRest the fields that are not mentioned get their zero value
 // (only the fields some translated function uses exist in the Lean structure)
 func (t *tr) structLit(x *ast.CompositeLit, st string, zeroRest bool) (string, bool) {
@@ -746,6 +755,28 @@ func (t *tr) structLit(x *ast.CompositeLit, st string, zeroRest bool) (string, b
 				fail("positional struct literal %s", src(x))
 			}
 			name = order[i]
+		}
+		// `E: E{f: v, …}` for an embedded struct E of the package: the promoted fields f of E get these values,
+		// the promoted fields of E that are not mentioned stay zero (as for every field the literal does not mention)
+		if cl, ok := val.(*ast.CompositeLit); ok && isEmbeddedIn(st, name) && cl.Type != nil && src(cl.Type) == name {
+			for _, el2 := range cl.Elts {
+				kv2, ok := el2.(*ast.KeyValueExpr)
+				if !ok {
+					fail("positional literal of the embedded struct %s", name)
+				}
+				f := kv2.Key.(*ast.Ident).Name
+				if promotedFrom[st][f] != name {
+					fail("field %s of the embedded struct %s is not promoted into %s", f, name, st)
+				}
+				if leanType(structFields[st][f]) == "" {
+					fail("struct literal sets %s.%s whose type is outside the subset", st, f)
+				}
+				useField(st, f)
+				v, m := t.expr(kv2.Value)
+				mon = mon || m
+				set[f] = v
+			}
+			continue
 		}
 		if leanType(structFields[st][name]) == "" {
 			fail("struct literal sets %s.%s whose type is outside the subset", st, name)
@@ -862,6 +893,19 @@ func (t *tr) effectStmt(ind int, c *ast.CallExpr) bool {
 	sel, ok := c.Fun.(*ast.SelectorExpr)
 	if !ok {
 		return false
+	}
+	// resp.Header().Add(k, v) on a *Response: what `Response.AddHeader(k, v)` is (response.go: `r.Header().Add(header, value)`,
+	// `Header` being the promoted method of the embedded http.ResponseWriter) — the same log entry
+	if hc, ok := sel.X.(*ast.CallExpr); ok && sel.Sel.Name == "Add" && len(c.Args) == 2 && len(hc.Args) == 0 {
+		if hs, ok := hc.Fun.(*ast.SelectorExpr); ok && hs.Sel.Name == "Header" {
+			if id, ok := hs.X.(*ast.Ident); ok && src(t.typeOf(id)) == "*Response" {
+				k, _ := t.expr(c.Args[0])
+				v, _ := t.expr(c.Args[1])
+				t.changed(id.Name)
+				t.line(ind, "%s := push %s (%s, %s)", t.lname(id.Name), t.lname(id.Name), k, v)
+				return true
+			}
+		}
 	}
 	if id, ok := sel.X.(*ast.Ident); ok {
 		switch src(t.typeOf(id)) {
